@@ -148,12 +148,17 @@ class JsonCodeGen(IntermediateCodeGen):
             if modData:
                 unique_prefixes = {}
                 for oid in sorted(modData, key=lambda x: x.count('.')):
-                    for oid_prefix, modules in unique_prefixes.items():
-                        if ((oid + '.').startswith(oid_prefix + '.') and
-                                set(modules).issuperset(modData[oid])):
-                            break
-                    else:
-                        unique_prefixes[oid] = modData[oid]
+                    # keep a module under this OID unless a shorter entry
+                    # already names it (decided per module, so that indexing
+                    # the same MIBs again can not grow the entry)
+                    modules = [
+                        module for module in modData[oid]
+                        if not any((oid + '.').startswith(oid_prefix + '.') and
+                                   module in prefix_modules
+                                   for oid_prefix, prefix_modules in unique_prefixes.items())
+                    ]
+                    if modules:
+                        unique_prefixes[oid] = modules
 
                 outDict['oids'] = unique_prefixes
 
